@@ -325,3 +325,130 @@ func (p *prover) callCases(call *ssa.Call) [][]dfact {
 	}
 	return out
 }
+
+// nilErrorFacts: a validation helper of the module that returns an error (`if err := check(len(src), want); err != nil
+// { return err }`). Where the caller goes on with err == nil, whatever holds among the helper's parameters at every
+// one of its returns with a nil error holds among the caller's arguments.
+func (p *prover) nilErrorFacts(bo *ssa.BinOp, truth bool) []dfact {
+	if p.c == nil || (bo.Op != token.EQL && bo.Op != token.NEQ) {
+		return nil
+	}
+	isNil := func(v ssa.Value) bool { k, ok := v.(*ssa.Const); return ok && k.IsNil() }
+	var ev ssa.Value
+	switch {
+	case isNil(bo.Y):
+		ev = bo.X
+	case isNil(bo.X):
+		ev = bo.Y
+	default:
+		return nil
+	}
+	if !types.Identical(ev.Type(), types.Universe.Lookup("error").Type()) {
+		return nil
+	}
+	if (bo.Op == token.EQL) != truth {
+		return nil // this edge is the one with a non-nil error
+	}
+	var call *ssa.Call
+	idx := 0
+	switch x := ev.(type) {
+	case *ssa.Call:
+		call = x
+	case *ssa.Extract:
+		call, _ = x.Tuple.(*ssa.Call)
+		idx = x.Index
+	}
+	if call == nil {
+		return nil
+	}
+	g := call.Call.StaticCallee()
+	if g == nil || g == p.fn || g.Pkg == nil || !strings.HasPrefix(g.Pkg.Pkg.Path(), modPath) || len(g.Blocks) == 0 || p.c.ipDepth > 2 {
+		return nil
+	}
+	var ts []types.Type
+	var pvals []ssa.Value
+	for _, pr := range g.Params {
+		ts = append(ts, pr.Type())
+		pvals = append(pvals, pr)
+	}
+	qs := quantitiesOf(ts, "p")
+	if len(qs) == 0 || len(qs) > 8 || len(pvals) != len(call.Call.Args) {
+		return nil
+	}
+	p.c.ipDepth++
+	defer func() { p.c.ipDepth-- }()
+	pg := p.c.proverFor(g)
+	type pair struct{ a, b int }
+	var common map[pair]int64
+	n := 0
+	for _, r := range returnsOf(g) {
+		if idx >= len(r.Results) {
+			return nil
+		}
+		if k, isC := r.Results[idx].(*ssa.Const); !isC || !k.IsNil() {
+			if onNonNilEdge(r.Block(), r.Results[idx]) {
+				continue // returns a non-nil error
+			}
+			if _, isCall := r.Results[idx].(*ssa.Call); isCall {
+				continue // a freshly made error (fmt.Errorf ...): judged non-nil like the explicit sentinels
+			}
+			if _, isMI := r.Results[idx].(*ssa.MakeInterface); isMI {
+				continue
+			}
+			if g2, isG := r.Results[idx].(*ssa.UnOp); isG {
+				if _, isGlobal := g2.X.(*ssa.Global); isGlobal {
+					continue // a package-level error variable
+				}
+			}
+			return nil // may be nil in a way not understood here
+		}
+		n++
+		cur := map[pair]int64{}
+		for i, qa := range qs {
+			la := pg.qlin(qa, pvals)
+			if k, ok := pg.boundAt(r.Block(), la); ok {
+				cur[pair{i, -1}] = k
+			}
+			if k, ok := pg.boundAt(r.Block(), negLin(la)); ok {
+				cur[pair{-1, i}] = k
+			}
+			for j, qb := range qs {
+				if i != j {
+					if k, ok := pg.boundAt(r.Block(), addLin(la, negLin(pg.qlin(qb, pvals)))); ok {
+						cur[pair{i, j}] = k
+					}
+				}
+			}
+		}
+		if common == nil {
+			common = cur
+		} else {
+			for k, v := range common {
+				if w, ok := cur[k]; !ok {
+					delete(common, k)
+				} else if w > v {
+					common[k] = w
+				}
+			}
+		}
+	}
+	if n == 0 || len(common) == 0 {
+		return nil
+	}
+	args := call.Call.Args
+	var out []dfact
+	for k, v := range common {
+		la, lb := constLin(0), constLin(0)
+		if k.a >= 0 {
+			la = p.qlin(qs[k.a], args)
+		}
+		if k.b >= 0 {
+			lb = p.qlin(qs[k.b], args)
+		}
+		d := addLin(la, negLin(lb))
+		if d.ok {
+			out = append(out, dfact{d.pos, d.neg, v - d.c, "nil error of " + fname(g)})
+		}
+	}
+	return out
+}
